@@ -531,5 +531,31 @@ def monitor_meta(lab):
     return plan(), d
 
 
-CORPUS = dict(monitor_meta=monitor_meta, monitor_mid=monitor_mid, stubbed=stubbed, sparse=sparse, two_runs_cleared=two_runs_cleared, late_wait=late_wait, norewind_section=norewind_section, configure_mid=configure_mid, count_norewind=count_norewind, declared=declared, double_stage=double_stage, failpause=failpause, defer_failpause=defer_failpause, count2=count2, scan2=scan2, scan3=scan3, rel_scan2=rel_scan2, list_scan2=list_scan2, grid2x2=grid2x2, adaptive=adaptive, tune=tune,
+def interleaved(lab):
+    """Two runs with different keys closed in the order they were opened (not nested): open a, open b, close a, close b."""
+    from bluesky.utils import Msg
+
+    d = _std(lab)
+    det = d["det"]
+
+    def pt(k):
+        yield Msg("checkpoint")
+        yield Msg("create", name="primary", run=k)
+        yield Msg("read", det, run=k)
+        yield Msg("save", run=k)
+
+    def plan():
+        yield Msg("open_run", run="a", key="a")
+        yield from pt("a")
+        yield Msg("open_run", run="b", key="b")
+        yield from pt("b")
+        yield from pt("a")
+        yield Msg("close_run", run="a", exit_status="success", reason="")
+        yield from pt("b")
+        yield Msg("close_run", run="b", exit_status="abort", reason="user says so")
+
+    return plan(), d
+
+
+CORPUS = dict(interleaved=interleaved, monitor_meta=monitor_meta, monitor_mid=monitor_mid, stubbed=stubbed, sparse=sparse, two_runs_cleared=two_runs_cleared, late_wait=late_wait, norewind_section=norewind_section, configure_mid=configure_mid, count_norewind=count_norewind, declared=declared, double_stage=double_stage, failpause=failpause, defer_failpause=defer_failpause, count2=count2, scan2=scan2, scan3=scan3, rel_scan2=rel_scan2, list_scan2=list_scan2, grid2x2=grid2x2, adaptive=adaptive, tune=tune,
               fly1=fly1, bare=bare, cleanup=cleanup, staged_monitor=staged_monitor, nested_runs=nested_runs, flymon=flymon)
